@@ -140,6 +140,15 @@ theorem abc_rebuild_normal (bx : Box K) (h : bx.isLammpsNorm = true) (a b c ca c
     rw [hca]; field_simp; ring
   simp only [ofAbc?, ofLengthsP?, abcLengths, Box.ofLengths?, ha, hly, hlz, and_self, if_true, e1, e2, e3]
 
+example : ∃ (bx : Box ℚ) (a b c ca cb cg : ℚ), bx.isLammpsNorm = true ∧ 0 < a ∧ 0 < b ∧ 0 < c ∧
+    a * a = a2 bx ∧ b * b = b2 bx ∧ c * c = c2 bx ∧ b * c * ca = dotBC bx ∧ a * c * cb = dotAC bx ∧
+    a * b * cg = dotAB bx ∧ bx.vects.r1.x ≠ 0 ∧ bx.vects.r2.x ≠ 0 :=
+  ⟨⟨⟨⟨2, 0, 0⟩, ⟨3, 4, 0⟩, ⟨5, 0, 12⟩⟩, ⟨1, 2, 3⟩⟩, 2, 5, 13, 3/13, 5/13, 3/5, by decide +kernel,
+    by norm_num [a2, b2, c2, dotBC, dotAC, dotAB, V3.normSq, V3.dot]⟩
+
+/-- three vectors -> `vects` and back is the identity (the two vector parameter sets). -/
+theorem vectors_roundtrip (b : Box K) : ofVectors b.vects.r0 b.vects.r1 b.vects.r2 b.origin = b := rfl
+
 /-! ### equal Gram matrix = same cell up to a rigid rotation -/
 
 theorem gram_det (v : M3 K) : (gram v).det = v.det * v.det := by
@@ -194,6 +203,12 @@ theorem abc_rebuild_rotation (bx : Box K) (hdet : 0 < bx.vects.det) (a b c ca cb
   apply gram_eq_rotation _ _ hdet hd'
   simp only [a2, b2, c2, dotAB, dotAC, dotBC, V3.normSq, V3.dot] at *
   ext <;> simp only [gram, M3.mul, M3.vecMul, M3.transpose] <;> linarith
+
+example : ∃ (bx : Box ℚ) (a b c ca cb cg ly lz : ℚ), 0 < bx.vects.det ∧ bx.isLammpsNorm = false ∧ 0 < a ∧
+    a * a = a2 bx ∧ b * b = b2 bx ∧ c * c = c2 bx ∧ b * c * ca = dotBC bx ∧ a * c * cb = dotAC bx ∧
+    a * b * cg = dotAB bx ∧ 0 < ly ∧ ly * ly = abcLySq b cg ∧ 0 < lz ∧ lz * lz = abcLzSq b c ca cb cg ly :=
+  ⟨⟨⟨⟨0, 2, 0⟩, ⟨0, 3, 4⟩, ⟨12, 5, 0⟩⟩, ⟨1, 2, 3⟩⟩, 2, 5, 13, 3/13, 5/13, 3/5, 4, 12, by decide +kernel, by decide +kernel,
+    by norm_num [a2, b2, c2, dotBC, dotAC, dotAB, V3.normSq, V3.dot, abcLySq, abcLzSq]⟩
 
 /-! ### the two coordinate maps -/
 
@@ -363,7 +378,7 @@ theorem outside_iff_rel (b : Box K) (hd : 0 < b.vects.det) (lam : Lams K) (hl : 
   · rw [outside_eq_not_inside, Bool.not_true, Bool.not_eq_true', ← Bool.not_eq_true,
       inside_excl_iff_rel b hd lam hl p]
 
-/-! ### volume -/
+/-! ### volume, and the setter clean-up -/
 
 theorem volume_eq_absdet (b : Box K) : volume b = |b.vects.det| := by
   simp only [volume, absK_eq_abs, M3.det]
@@ -451,6 +466,17 @@ theorem hilos_roundtrip_clean (thr : K) (b : Box K) (hc : IsClean thr b) (h : b.
   refine ⟨p, h1, ?_⟩
   simp only [setHiLos?, h2, Option.map_some]
   have : cleanVects thr b.vects = b.vects := hc
+  rw [this]
+
+/-- the executed `set_abc` path on a clean LAMMPS-normal box fed with its own parameters. -/
+theorem abc_rebuild_normal_clean (thr : K) (bx : Box K) (hcl : IsClean thr bx) (h : bx.isLammpsNorm = true)
+    (a b c ca cb cg : K) (ha : 0 < a) (hb : 0 < b) (hc : 0 < c)
+    (ha2 : a * a = a2 bx) (hb2 : b * b = b2 bx) (hc2 : c * c = c2 bx)
+    (hca : b * c * ca = dotBC bx) (hcb : a * c * cb = dotAC bx) (hcg : a * b * cg = dotAB bx) :
+    setAbc? thr a b c ca cb cg bx.vects.r1.y bx.vects.r2.z bx.origin = some bx := by
+  have e := abc_rebuild_normal bx h a b c ca cb cg ha hb hc ha2 hb2 hc2 hca hcb hcg
+  simp only [setAbc?, e, Option.map_some]
+  have : cleanVects thr bx.vects = bx.vects := hcl
   rw [this]
 
 end Atomman.C01
